@@ -60,6 +60,19 @@ Fixed == {
   [name |-> "method_arg", bad |-> <<"bx = Box()", "flt = bx.add(\"s\")" \o M>>, good |-> <<"bx = Box()", "flt = bx.add(2)">>],
   [name |-> "ctor_arg", bad |-> <<"flt = Pt(\"s\")" \o M>>, good |-> <<"flt = Pt(2)">>],
   [name |-> "assert_non_bool", bad |-> <<"assert 5" \o M>>, good |-> <<"assert true">>],
+  \* an optional boolean is not a boolean
+  [name |-> "cond_if_optbool", bad |-> <<"if bopt { flt = 1 }" \o M>>, good |-> <<"if (bopt) or false { flt = 1 }">>],
+  [name |-> "cond_while_optbool", bad |-> <<"while bopt { break }" \o M>>, good |-> <<"while (bopt) or false { break }">>],
+  [name |-> "cond_elif_optbool", bad |-> <<"if false { flt = 1 } else if bopt { flt = 2 }" \o M>>, good |-> <<"if false { flt = 1 } else if (bopt) or false { flt = 2 }">>],
+  [name |-> "assert_optbool", bad |-> <<"assert bopt" \o M>>, good |-> <<"assert (bopt) or false">>],
+  [name |-> "cond_if_parse_bool", bad |-> <<"if \"true\".parse_bool() { flt = 1 }" \o M>>, good |-> <<"if (\"true\".parse_bool()) or false { flt = 1 }">>],
+  [name |-> "not_optbool", bad |-> <<"flt = !bopt" \o M>>, good |-> <<"flt = !(get bopt)">>],
+  \* growable-list methods do not exist on fixed-shape lists of mixed element types
+  [name |-> "mixed3_reverse", bad |-> <<"const row = [10, 20, \"t\"]", "row.reverse()" \o M>>, good |-> <<"row: [int...] = [10, 20, 30]", "row.reverse()">>],
+  [name |-> "mixed4_remove", bad |-> <<"const row = [10, 20, \"t\", \"u\"]", "flt = row.remove(2)" \o M>>, good |-> <<"row: [int...] = [10, 20, 30, 40]", "flt = row.remove(2)">>],
+  [name |-> "mixed3_push", bad |-> <<"const row = [10, 20, \"t\"]", "row.push(5)" \o M>>, good |-> <<"row: [int...] = [10, 20, 30]", "row.push(5)">>],
+  [name |-> "mixed2_map", bad |-> <<"const row = [10, \"t\"]", "flt = row.map(fn(q: int) -> int { return q })" \o M>>,
+                          good |-> <<"row: [int...] = [10, 20]", "flt = row.map(fn(q: int) -> int { return q })">>],
   \* an atom takes one prefix operator: `typeof -5` falls back to reading `typeof` as a (never declared) name
   [name |-> "prefix_word", bad |-> <<"print typeof -5" \o M>>, good |-> <<"tyx = typeof 5">>],
   [name |-> "index_with_optional", bad |-> <<"flt = ilist[iopt]" \o M>>, good |-> <<"k0 = 0", "flt = ilist[k0]">>],
@@ -89,7 +102,7 @@ Prologue == <<"class Box {", "	v: int", "	constructor(self) {", "		self.v = 1", 
               "	fn val(self) -> int {", "		return self.v", "	}",
               "	fn add(self, n: int) -> int {", "		return self.v + n", "	}", "}",
               "class Pt {", "	q: int", "	constructor(self, q: int) {", "		self.q = q", "	}", "}",
-              "ilist: [int...] = [1, 2]", "ifn = fn() -> int { return 1 }", "iopt: int? = 4", "sopt: str? = \"o\"">>
+              "ilist: [int...] = [1, 2]", "ifn = fn() -> int { return 1 }", "iopt: int? = 4", "sopt: str? = \"o\"", "bopt: bool? = true">>
 Indent(ls) == [k \in 1..Len(ls) |-> "	" \o ls[k]]
 Wrap(ctx, ls) ==
     CASE ctx \in {"module", "lib"} -> ls
